@@ -985,6 +985,24 @@ def rule_variable_slots(rep, idx, rid='R15'):
                 for v in sorted(used & set(written)):
                     bad.append('the slot of %s is overwritten before %s is evaluated, which then sees the new value' % (v, M.X.show(d.fields['expr'])))
         rep.add(rid, name, not bad, where, '; '.join(bad) if bad else 'template %s' % [t for t, _ in M.instrs()][:20])
+    # a call statement always transfers control to the callee, whatever the callee's body is (the source's call sequence is what the
+    # trace of C15 reports; an elided call is also a lost frame / lost side effects once the callee changes)
+    for body_kind in ('skip', 'stop'):
+        M = setup()
+        q = M.symbol('q', 'PROC', '')
+        try:
+            body = M.I.construct('xcmp::SkipStatement', [None]) if body_kind == 'skip' else M.I.construct('xcmp::StopStatement', [None])
+            q.fields['node'] = M.I.construct('xcmp::Proc', [None, const(1, False, 0), ('str', 'q'), Vec([]), Vec([]), body])
+            st = M.I.construct('xcmp::CallStatement', [None, M.X.call('q', [])])
+            M.X.visit_post(M.stmt_visitor(), st)
+        except (NeedSplit, Thrown, AnalysisBroken) as e:
+            rep.undecided(rid, 'call statement q() with body %s' % body_kind, 'cannot generate: %s' % e, where)
+            continue
+        targets = [repr(d.fields.get('label')) for tk, d in M.instrs() if tk == 'BR' and d.cls == 'hexasm::InstrLabel']
+        ok = any("'q'" in t for t in targets)
+        rep.add(rid, 'call statement q() where q is `%s`' % body_kind, ok, where + '::visitPost(CallStatement&)',
+                'the template branches to %s' % targets if ok else
+                'no branch to q is generated (template %s): the call is elided, so q is never entered' % [t for t, _ in M.instrs()])
 
 
 # --------------------------------------------------------------------------------------------------
